@@ -42,16 +42,20 @@ def emit_projects(tier, seed, sc):
     thorough = tier == "thorough"
     plan = [("Pipeline_sim.cfg", 300 if thorough else 40), ("Pipeline_c06sim.cfg", 300 if thorough else 40),
             ("Pipeline_c19sim.cfg", 300 if thorough else 40), ("Pipeline_c07sim.cfg", 300 if thorough else 40)]
+    plan.append(("Pipeline_c06grp.cfg", None))      # exhaustive set (identifier lists in signatures), shuffled below
 
     def emit(item):
         cfgname, n = item
         out = os.path.join(sc, "proj-" + cfgname + ".cases")
-        r = c.tlc("PipelineMC", cfgname, workers=1, out_file=out, simulate="num=%d" % n, depth=80, seed_=seed, timeout=1500)
+        r = c.tlc("PipelineMC", cfgname, workers=1, out_file=out, simulate=("num=%d" % n) if n else None, depth=80 if n else None, seed_=seed, timeout=1500)
         if r.rc == 124 or r.error or r.violated:
             raise c.Trouble("TLC emission run %s failed:\n%s" % (cfgname, r.out[-2000:]))
-        return [l for l in open(out) if l.startswith('"CASE ')]
+        ls = [l for l in open(out) if l.startswith('"CASE ')]
+        if not n:
+            random.Random(seed).shuffle(ls)
+        return ls
 
-    with concurrent.futures.ThreadPoolExecutor(max_workers=4) as ex:
+    with concurrent.futures.ThreadPoolExecutor(max_workers=5) as ex:
         parts = list(ex.map(emit, plan))
     # interleave the two input sets so that both kinds of project (several controllers / imported model types) are used
     lines = []
